@@ -152,7 +152,7 @@ func TestC02(t *testing.T) {
 	})
 	p = c.rec.NewPart("rapid_corpus_mutation", "rapid: repository HTML fixtures and payloads with 1-4 edits", true, false, "")
 	c.Rapid(p, 4, pick(15000, 300000), func(rt *rapid.T, sh int) ev.Case {
-		return c02Case(gen.Mutate(rt, rapid.SampledFrom(corpus.HTML).Draw(rt, "base"), gen.FragHTML))
+		return c02Case(gen.Mutate(rt, rapid.SampledFrom(corp().HTML).Draw(rt, "base"), gen.FragHTML))
 	})
 	c.rec.Require("returns_true", "returns_false", "stack_probe")
 }
